@@ -147,7 +147,14 @@ func c04CheckProg(r *vlib.Run, blob []byte, w *c01World, std *c01World, note str
 			break
 		}
 	}
-	// (b) Psi_M on the same code as a standard program
+	// (b) Psi_M on the same code as a standard program. In that world the heap may
+	// grow up to the stack (≈ 4 GiB): code containing the sbrk opcode byte is left out
+	// (a mis-decoded operand could make the implementation map gigabytes)
+	for _, b := range prog.Code {
+		if b == 101 {
+			return class + " psim:has-sbrk-byte"
+		}
+	}
 	clean3, _, n3, why3 := c04CleanModuloGas(prog, blob, std)
 	if why3 == "long" {
 		return class + " psim:long"
@@ -216,7 +223,13 @@ func c04CheckProg(r *vlib.Run, blob []byte, w *c01World, std *c01World, note str
 		}
 		key := "psi_m" + big
 		if big == "" {
-			key = "psi_m;" + c01KeyOf(&ref, nil)
+			// name the instruction like the HostCall seam does (c01Culprit needs to know
+			// whether the implementation ended out of gas)
+			pim := c01Impl{deblobOK: true, kind: refpvm.Panic}
+			if imOOG {
+				pim.kind = refpvm.OOG
+			}
+			key = "psi_m;" + c01KeyOf(&ref, &pim)
 		}
 		c04Viol(r, "Psi_M", kind, key, func() string {
 			return fmt.Sprintf("standard program %x gas limit %d: Psi_M reports gas used %d, result %v; the reference exits %s after %d steps with %d gas left (used %d)",
